@@ -72,7 +72,7 @@ Lemma missing_sizes_rejected_lemma : forall fixed pomdp ls p body,
   (pS p = 0%N \/ pA p = 0%N \/ (pomdp = true /\ pO p = 0%N)) ->
   parse_lines fixed pomdp ls = Throw E_incomplete.
 Proof.
-  intros fixed pomdp ls p body Hp H. unfold parse_lines. rewrite Hp. cbn [bind fst snd].
+  intros fixed pomdp ls p body Hp H. unfold parse_lines, parse_lines_from. rewrite Hp. cbn [bind fst snd].
   destruct H as [H|[H|[H1 H2]]].
   - rewrite H. reflexivity.
   - rewrite H. cbn [N.eqb]. rewrite orb_true_r. reflexivity.
